@@ -256,7 +256,9 @@ func (p *Parser) parseCallExpression(function Expression) Expression {
 func (p *Parser) parseIndexExpression(left Expression) Expression {
 	expression := &IndexExpression{Token: p.curToken, Left: left, Type: ObjectTypeList}
 
-	p.nextToken()
+	if !p.expectPeek(IDENT) {
+		return nil
+	}
 
 	expression.Index = p.parseIdentifier()
 
@@ -279,27 +281,43 @@ func (p *Parser) parseBetweenExpression(left Expression) Expression {
 		Range: [2]Expression{},
 	}
 
-	p.nextToken()
+	if !p.expectPeek(IDENT) {
+		return nil
+	}
+
 	expression.Range[0] = p.parseIdentifier()
 
 	if !p.expectPeek(AND) {
 		return nil
 	}
 
-	p.nextToken()
+	if !p.expectPeek(IDENT) {
+		return nil
+	}
+
 	expression.Range[1] = p.parseIdentifier()
 
 	return expression
 }
 
 func (p *Parser) parseInExpression(left Expression) Expression {
-	p.nextToken()
+	if !p.expectPeek(LPAREN) {
+		return nil
+	}
 
-	return &InExpression{
+	expression := &InExpression{
 		Token: p.curToken,
 		Left:  left,
 		Range: p.parseCallArguments(),
 	}
+
+	if expression.Range != nil && len(expression.Range) == 0 {
+		p.errors = append(p.errors, "IN requires at least one operand in its list")
+
+		return nil
+	}
+
+	return expression
 }
 
 func (p *Parser) parseCallArguments() []Expression {
